@@ -22,7 +22,7 @@ ASSUMPTIONS = [
     "the frozen table in vf/ref/isa.py is the published instruction table (core 1-19, 32-41, 100; vanilla 20-31, mov=42; NV rot 27-29, crot 30-31)",
     "classes present in the tree but absent from the table are counted as unreferenced, not judged",
 ]
-SHARDS = {"quick": 1, "thorough": 8}
+SHARDS = {"quick": 1, "thorough": 16}
 MIN_COUNTERS = {"byte_comparisons": 1000, "reference_decodes": 1000}
 
 
@@ -84,9 +84,9 @@ def cases(ctx):
                            "instrs": [["set", [["C", 3], 0x01020304]]]}
     if ctx.shard == 0:
         for flav in ("vanilla", "nv"):
-            yield {"kind": "threaded", "flavour": flav, "threads": 4, "rounds": ctx.n(250, 5000), "version": [1, 0],
+            yield {"kind": "threaded", "flavour": flav, "threads": 4, "rounds": ctx.n(250, 40000), "version": [1, 0],
                    "seed": rng.randrange(2**31)}
-    for _ in range(ctx.n(200, 20000)):
+    for _ in range(ctx.n(200, 300000)):
         flav = rng.choice(["vanilla", "nv", "reids"])
         names = sorted(isa.TABLE[flav])
         ins = []
